@@ -4,7 +4,7 @@ from pyvc.core import Contract, IS_DIGIT, LAST_PRE, LAST_SUF, PIECE_M, piece_axi
 from pyvc.sym import (VInt, VBool, VStr, VRef, VOpt, VRec, INT, BOOL, STR, REF, TOpt, TRec, conj, disj, neg, ite,
                       implies, length, tobool, toint, tostr, fresh_name, vite, StrS)
 
-VERIFY = ["trees.trees.parse_label", "trees.trees.format_label"]
+VERIFY = ["trees.trees.parse_label", "trees.trees.format_label", "trees.trees.get_label"]
 SHARDS = {"trees.trees.parse_label": 16}
 
 TRUSTED = ["str.isdigit: uninterpreted predicate with the axiom isdigit(s) -> len(s) > 0",
@@ -181,6 +181,8 @@ def build(reg):
             after=lambda S: VBool(toint(S.gf_sep_pos) == z3.IndexOf(tostr(S.label), tostr(S.gf_separator), 0)))},
     ))
 
+    add_get_label(reg)
+
     # ---------------------------------------------------------------- format_label
     def fl_post(S, label, params, result):
         f = label.fields
@@ -199,6 +201,53 @@ def build(reg):
         target="trees.trees.format_label", prop="C20", args=dict(label=LABEL),
         params=dict(always_label=BOOL, always_gf=BOOL),
         ensures={"category_function_gap_coindex_head_in_order": fl_post}, result_type=STR))
+
+
+def get_label_spec(H, tree, params):
+    """category followed by exactly the decorations the options ask for (as a term)"""
+    has, val = params.fields["has"], params.fields["val"]
+    lab = H.data(tree, "label")
+    labs = z3.If(lab.isnone, S_("None"), lab.val.t)
+    edge = H.data(tree, "edge")
+    edges = z3.If(edge.isnone, S_("--"), edge.val.t)
+    sep = z3.If(has["gf_separator"], tostr(val["gf_separator"]), S_("-"))
+    gf_on = z3.And(has["gf"], z3.Not(z3.PrefixOf(S_("-"), edges)),
+                   z3.Or(H.nchild_t(tree.t) > 0, has["gf_terminals"]))
+    from pyvc.core import int_to_str
+    parts = [labs,
+             z3.If(gf_on, z3.Concat(sep, edges), S_("")),
+             z3.If(z3.And(has["mark_heads_marking"], H.data(tree, "head").t), S_(HM), S_("")),
+             z3.If(z3.And(has["boyd_split_marking"], H.data(tree, "split").t), S_("*"), S_("")),
+             z3.If(z3.And(has["boyd_split_numbering"], H.data(tree, "split").t),
+                   int_to_str(H.data(tree, "block_number").t), S_(""))]
+    return z3.Concat(*parts)
+
+
+GET_LABEL_PARAMS = dict(gf=BOOL, gf_separator=STR, gf_terminals=BOOL, mark_heads_marking=BOOL,
+                        boyd_split_marking=BOOL, boyd_split_numbering=BOOL)
+
+
+def get_label_requires(S, tree, params):
+    """the node exists and carries the flags the requested decorations print (Appendix A: mark_heads_marking only on
+    head-marked trees, boyd_split_* only after boyd_split)"""
+    H = S.H
+    has = params.fields["has"]
+    return VBool(z3.And(
+        tree.t != 0, H.has(tree, "label").t, H.has(tree, "edge").t,
+        z3.Implies(has["mark_heads_marking"], H.has(tree, "head").t),
+        z3.Implies(z3.Or(has["boyd_split_marking"], has["boyd_split_numbering"]), H.has(tree, "split").t),
+        z3.Implies(z3.And(has["boyd_split_numbering"], H.data(tree, "split").t), H.has(tree, "block_number").t)))
+
+
+def add_get_label(reg):
+    from contracts.common import add_common
+    add_common(reg)
+    reg.add(Contract(
+        target="trees.trees.get_label", prop="C20", args=dict(tree=REF), params=GET_LABEL_PARAMS,
+        requires=get_label_requires,
+        ensures={"category_then_requested_decorations":
+                 lambda S, tree, params, result: VBool(tostr(result) == get_label_spec(S.H, tree, params))},
+        result_type=STR))
 
 
 def lemma_roundtrip(reg, repo):
